@@ -250,7 +250,7 @@ def plan_c03(tier, seed, rng):
                                                         sto=rng.choice(['E', 'F', 'S']))))
                 n += 1
     return dict(
-        scripts=scripts, validators=[API], tags={'C03'},
+        scripts=scripts, validators=[API, STORE], tags={'C03'},
         rule='every single minterm (fixed / don\'t-care / don\'t-change in every position) on tiny shapes per forest kind x reduction rule, '
              'plus seeded random collections (1..24 overlapping minterms, MAX/MIN/single, defaults allowed by the API), constants and '
              'createEdgeForVar on random shapes up to 4 variables of sizes 2..5; a case is non-trivial when the resulting table is not constant; '
@@ -1007,5 +1007,440 @@ def plan_c20(tier, seed, rng):
              'empty events); random initial sets; pregen_relation by events and by levels with each of the five splitting options; relation forests '
              'identity-, fully- and quasi-reduced; SATURATION_FORWARD must equal the least fixed point TLC computes for the union relation and be the '
              'identical edge to REACHABLE_TRAD_NOFS on the union relation computed into the same forest; non-trivial = result not constant',
+        exhaustive=False,
+    )
+
+
+# ---------------------------------------------------------------------------
+# random operation histories (C01, C02, C06, C07, C12, C13, C16 drivers)
+# ---------------------------------------------------------------------------
+SETALG = ['UNION', 'INTERSECTION', 'DIFFERENCE']
+NUMOPS = ['PLUS', 'MINUS', 'MULTIPLY', 'MAXIMUM', 'MINIMUM']
+
+
+def history_script(rng, sizes, forests, steps, snap_every=12, ct=None, final_reclaim=True,
+                   slots_per_forest=4, allow_bulk=False, extra=None, snap_all=True):
+    """forests: list of dicts(kind, rule, sto, mm, dele).  Returns script text.
+    Random mix of constructions, operations within and across forests of the
+    same shape, edge copies / assignments / releases, cache maintenance."""
+    S = Script(ct=ct)
+    d = S.dom(sizes)
+    F = []
+    for fo in forests:
+        f = S.forest(d, fo['kind'], fo.get('rule', 'F'), sto=fo.get('sto', 'E'), mm=fo.get('mm', 'OG'), dele=fo.get('dele', 'O'),
+                     swap=fo.get('swap', 'V'), heur=fo.get('heur', 'SD'))
+        F.append(f)
+    kind_of = {f: forests[i]['kind'] for i, f in enumerate(F)}
+    rel_of = {f: KINDS[kind_of[f]][0] == 'R' for f in F}
+    slots = {f: [S.new(f) for _ in range(slots_per_forest)] for f in F}
+    live = {f: list(slots[f]) for f in F}
+
+    def pick(f):
+        return rng.choice(live[f])
+
+    def pal(kind):
+        return ARITH_PAL.get(kind) or COPY_PAL.get(kind)
+
+    for step in range(steps):
+        f = rng.choice(F)
+        kind = kind_of[f]
+        rel = rel_of[f]
+        npts = points_of(sizes, rel)
+        r = rng.random()
+        if not live[f]:
+            s = S.new(f)
+            slots[f].append(s)
+            live[f].append(s)
+            continue
+        if r < 0.22:
+            # construction
+            x = rng.random()
+            if x < 0.5:
+                table_coll(S, pick(f), f, kind, rand_table(rng, kind, npts, pal(kind), p_default=rng.choice([0.3, 0.6, 0.85])), sizes)
+            else:
+                n = rng.choice([1, 2, 3, 5])
+                p = gen.palette(kind)
+                mts = [(rng.choice(p), gen.rand_minterm(rng, sizes, rel)) for _ in range(n)]
+                mode, dflt = gen.pick_mode_default(rng, kind, [v for v, _ in mts])
+                S.coll(pick(f), f, mode, dflt, mts)
+        elif r < 0.62:
+            # operation; operands from forests of the same kind (any rule)
+            same = [g for g in F if kind_of[g] == kind and live[g]]
+            fa, fb = rng.choice(same), rng.choice(same)
+            if KINDS[kind][1] == 'B':
+                if rng.random() < 0.15:
+                    S.add('un COMPLEMENT %d %d' % (pick(f), pick(fa)))
+                else:
+                    S.add('bin %s %d %d %d' % (rng.choice(SETALG), pick(f), pick(fa), pick(fb)))
+            else:
+                ops = list(NUMOPS)
+                S.add('bin %s %d %d %d' % (rng.choice(ops), pick(f), pick(fa), pick(fb)))
+        elif r < 0.70:
+            # copy across forests of the same shape
+            others = [g for g in F if rel_of[g] == rel and g != f and live[g]]
+            if others:
+                g = rng.choice(others)
+                if not (KINDS[kind_of[g]][2] == 'ET' or KINDS[kind][2] == 'ET'):
+                    S.add('un COPY %d %d' % (pick(f), pick(g)))
+        elif r < 0.80:
+            a, b = pick(f), pick(f)
+            if a != b:
+                S.add('asg %d %d' % (a, b))
+        elif r < 0.88:
+            # release an edge, or create a copy in a new slot
+            if len(live[f]) > 2 and rng.random() < 0.6:
+                s = pick(f)
+                S.add('del %d' % s)
+                live[f].remove(s)
+            else:
+                s = S.slot()
+                S.add('copy %d %d' % (s, pick(f)))
+                slots[f].append(s)
+                live[f].append(s)
+        elif r < 0.93:
+            S.add(rng.choice(['clearct %d' % f, 'rmstale', 'clearall']))
+        elif r < 0.96 and allow_bulk:
+            S.add('bulk %d %d' % (pick(f), rng.choice([3, 300, 70000])))
+        else:
+            S.add('obs')
+        if extra:
+            extra(S, step, F, live, rng)
+        if snap_every and step % snap_every == snap_every - 1:
+            S.add('obs')
+            for g in (F if snap_all else [f]):
+                S.add('snap %d' % g)
+    S.add('obs')
+    for g in F:
+        S.add('snap %d' % g)
+    if final_reclaim:
+        for g in F:
+            for s in live[g]:
+                S.add('del %d' % s)
+        # pessimistic forests must be empty already; the others once the caches are empty
+        for g in F:
+            S.add('snap %d' % g)
+        S.add('clearall')
+        for g in F:
+            S.add('snap %d' % g)
+    return S.text()
+
+
+STO = ['E', 'F', 'S']
+MMS = ['OG', 'AG', 'MA', 'HE']
+DEL = ['O', 'P', 'N']
+
+HIST_KINDS_SET = ['mtb_s', 'mti_s', 'mtr_s', 'evp_s']
+HIST_KINDS_REL = ['mtb_r', 'mti_r', 'mtr_r', 'evp_r']     # EV*: only where values stay exact (C03, C05, C10)
+
+
+def rand_forests(rng, rel, n, pol=None):
+    kinds = HIST_KINDS_REL if rel else HIST_KINDS_SET
+    out = []
+    base = rng.choice(kinds)
+    for i in range(n):
+        k = base if rng.random() < 0.6 else rng.choice(kinds)
+        fo = dict(kind=k, rule=rng.choice(gen.rules_of(k)), sto=rng.choice(STO), mm=rng.choice(MMS), dele=rng.choice(DEL))
+        if pol:
+            fo.update(pol)
+        out.append(fo)
+    return out
+
+
+def hist_shapes(rng, rel):
+    return gen.rand_sizes(rng, 9 if rel else 36, maxvars=(2 if rel else 3), maxsize=4)
+
+
+@plan('C02')
+def plan_c02(tier, seed, rng):
+    scripts = []
+    reps = 40 if tier == 'thorough' else 10
+    for i in range(reps):
+        rel = i % 2 == 1
+        sizes = hist_shapes(rng, rel)
+        forests = rand_forests(rng, rel, rng.choice([1, 2, 3]))
+        scripts.append(('h%03d' % i, history_script(rng, sizes, forests, 90 if tier == 'thorough' else 60, snap_every=10)))
+    return dict(
+        scripts=scripts, validators=[API, STORE], tags={'C02'}, lifecycle=False,
+        rule='seeded random histories (constructions from tables and minterm collections, set algebra / arithmetic within and across forests of one kind, '
+             'COPY across kinds, edge assignment / copy / release, clearing and stale-removal of compute tables) over 1..3 forests per execution with random '
+             'kind (MT boolean/integer/real, EV+, EV*; sets and relations), reduction rule, storage, memory manager and deletion policy; a snapshot of every '
+             'live node (full / sparse / either unpacking, hashes, unique-table look-ups, singleton query, counts) of every forest every 10 calls and at the end, '
+             'after releasing all edges and after clearing the caches; TLC evaluates WellFormedNode for every node of every snapshot and compares the node '
+             'denotation of every held edge with its evaluated table; non-trivial = snapshot with more than one node / non-constant result',
+        exhaustive=False,
+    )
+
+
+@plan('C06')
+def plan_c06(tier, seed, rng):
+    scripts = []
+    reps = 36 if tier == 'thorough' else 9
+    for i in range(reps):
+        rel = i % 3 == 2
+        sizes = hist_shapes(rng, rel)
+        forests = rand_forests(rng, rel, rng.choice([1, 2, 3]), pol=dict(dele=DEL[i % 3]))
+        scripts.append(('l%03d' % i, history_script(rng, sizes, forests, 120 if tier == 'thorough' else 70, snap_every=9, allow_bulk=True)))
+    return dict(
+        scripts=scripts, validators=[API, STORE], tags={'C06', 'HELD'}, lifecycle=True,
+        mc=[('MddStore.tla', 'StoreMC_F_O.cfg', {}), ('MddStore.tla', 'StoreMC_Q_P.cfg', {})] if tier == 'thorough' else [('MddStore.tla', 'StoreMC_small.cfg', {})],
+        rule='model: MddStore (reduce / unique-table / link / unlink / lastUnlink / deleteNode / recycle / cache counts / compute table) model-checked '
+             'exhaustively on a 2-level forest with invariants RefExact, NoDangling, FreeMeansUnreferenced, ReclaimAll, Refines; implementation: seeded random '
+             'histories over 1..3 forests under optimistic, pessimistic and never-delete policies with lifecycle events (NewNode / DelNode / Recycle) and a '
+             'snapshot every 9 calls; TLC checks at every snapshot incoming count = parent slots + registered root edges + build-list references, no pointer to '
+             'a reclaimed node, live set = set implied by the lifecycle events, handles allocated only when free and unmentioned by the cache, every held edge '
+             'still denotes its function, and nothing remains once all edges are released (pessimistic) and the caches cleared (optimistic); reference counts are '
+             'driven through the 8/16/32-bit counter widths by 300 and 70000 extra copies; non-trivial = snapshot with more than one node',
+        exhaustive=False,
+    )
+
+
+CT_STYLES = [0, 1, 2, 3]
+CT_STALE = [0, 1, 2]
+
+
+@plan('C07')
+def plan_c07(tier, seed, rng):
+    scripts = []
+    n = 0
+    configs = [(s, r, m) for s in CT_STYLES for r in CT_STALE for m in (1024, 0)]
+    rng.shuffle(configs)
+    use = configs if tier == 'thorough' else configs[:6]
+    # one history per shape, executed under every chosen table configuration
+    for h in range(3 if tier == 'thorough' else 2):
+        rel = h % 2 == 1
+        sizes = hist_shapes(rng, rel)
+        forests = rand_forests(rng, rel, 2, pol=dict(dele=rng.choice(DEL)))
+        st = rng.getstate()
+        for (style, stale, mx) in use:
+            rng.setstate(st)       # same script text for every configuration
+            text = history_script(rng, sizes, forests, 150 if tier == 'thorough' else 90, snap_every=15, ct=(style, stale, mx))
+            scripts.append(('t%03d_s%dr%dm%d' % (n, style, stale, mx), text))
+            n += 1
+    return dict(
+        scripts=scripts, validators=[API, STORE], tags={'C07', 'HELD'}, lifecycle=True,
+        mc=[('MddStore.tla', 'StoreMC_small.cfg', {})] + ([('MddStore.tla', 'StoreMC_bug_cache.cfg', {'expect_violation': True}),
+                                                            ('MddStore.tla', 'StoreMC_bug_hit.cfg', {'expect_violation': True})] if tier == 'thorough' else []),
+        rule='model: MddStore with a compute table (invariants CacheExact, CTSound, DeadOnlyWhileCached, action property HitNeverDead; the seeded design '
+             'deviations "recycle ignores cache count" and "hit ignores dead nodes" must be refuted by TLC); implementation: the same seeded history executed '
+             'under monolithic/per-operation x chained/unchained tables, the three stale-removal policies and maximum sizes 1024 / default, each trace '
+             'validated against the API specification (which has no cache), so all configurations agree; CTAdd / CTHit / CTDel events: a hit must return an '
+             'entry that was added, not deleted, and whose nodes are all live in the generation they had at the add; at every snapshot the cache count of every '
+             'node = entries recorded by the specification = entries counted by the table; non-trivial = non-constant result / multi-node snapshot',
+        exhaustive=False,
+    )
+
+
+@plan('C12')
+def plan_c12(tier, seed, rng):
+    scripts = []
+    n = 0
+    combos = [(a, b, c) for a in STO for b in MMS for c in DEL]
+    if tier != 'thorough':
+        # 6 configurations in which every value of every axis appears
+        rng.shuffle(combos)
+        pick, seen = [], set()
+        for c in combos:
+            if any((i, v) not in seen for i, v in enumerate(c)):
+                pick.append(c)
+                seen |= {(i, v) for i, v in enumerate(c)}
+        combos = pick[:8]
+    for h in range(3 if tier == 'thorough' else 2):
+        rel = h % 2 == 1
+        sizes = hist_shapes(rng, rel)
+        base = rand_forests(rng, rel, 2)
+        st = rng.getstate()
+        for (sto, mm, de) in combos:
+            rng.setstate(st)
+            forests = [dict(f, sto=sto, mm=mm, dele=de) for f in base]
+            text = history_script(rng, sizes, forests, 140 if tier == 'thorough' else 80, snap_every=20)
+            scripts.append(('p%03d_%s%s%s' % (n, sto, mm, de), text))
+            n += 1
+    return dict(
+        scripts=scripts, validators=[API, STORE], tags={'C12', 'C02', 'C11', 'HELD'},
+        post='policy_agreement',
+        rule='one seeded history (allocation-heavy: constructions, operations, releases, cache clears) per shape executed once per storage {full, sparse, '
+             'either} x memory manager {original grid, array+grid, malloc, heap} x deletion {optimistic, pessimistic, never} (all 36 in thorough, a covering subset '
+             'in quick); every trace is validated against the one specification, which has no policy parameter, so function tables agree across configurations; '
+             'node counts of every edge are checked against the snapshot and canonical structure by the C02 predicates; non-trivial = non-constant result',
+        exhaustive=(tier == 'thorough'),
+    )
+
+
+@plan('C01')
+def plan_c01(tier, seed, rng):
+    scripts = []
+    n = 0
+    for kind in [k for k in KINDS if k != 'idx_s']:
+        rel = KINDS[kind][0] == 'R'
+        for rule in gen.rules_of(kind):
+            for rep in range(3 if tier == 'thorough' else 1):
+                sizes = hist_shapes(rng, rel)
+                scripts.append(('k%03d' % n, c01_script(rng, sizes, kind, rule, 8 if tier == 'thorough' else 5)))
+                n += 1
+    # results of every other operation family must be canonical too: borrow a
+    # seeded sample of the executions of the function-level plans (judged here
+    # only for identity <=> function)
+    for other in ('C04', 'C05', 'C08', 'C09', 'C10', 'C20'):
+        sub = PLANS[other]('quick', seed, random.Random(seed * 7919 + int(other[1:])))['scripts']
+        k = 10 if tier == 'thorough' else 3
+        for (nm, text) in rng.sample(sub, min(k, len(sub))):
+            scripts.append(('%s_%s' % (other, nm), text))
+    return dict(
+        scripts=scripts, validators=[API, STORE], tags={'C01'},
+        mc=[('MddStore.tla', 'StoreMC_small.cfg', {})],
+        rule='model: invariants Canonical and RootsCanonical of MddStore; implementation, per forest kind x rule: each target function is built along several '
+             'paths - one collection, single minterms in shuffled order joined by the forest\'s join operation, algebraic rewrites that are identities in the '
+             'specification, a copy to another forest and back, again after releasing everything (handle reuse), under full-only / sparse-only storage - and all '
+             'resulting edges are held; TLC checks equal identity <=> equal function over all held edges at every result, hash / unique-table agreement for every '
+             'node; plus a seeded sample of the executions of the C04/C05/C08/C09/C10/C20 drivers (set algebra, arithmetic, images, reachability, copies) judged for the '
+             'same invariant; non-trivial = non-constant function',
+        exhaustive=False,
+    )
+
+
+def c01_script(rng, sizes, kind, rule, nfun):
+    sr, rngt, lab = KINDS[kind]
+    rel = sr == 'R'
+    S = Script()
+    d = S.dom(sizes)
+    f = S.forest(d, kind, rule, sto=rng.choice(STO))
+    g = S.forest(d, kind, rng.choice(gen.rules_of(kind)), sto=rng.choice(STO))
+    npts = points_of(sizes, rel)
+    pal = COPY_PAL.get(kind)
+    targets = [S.new(f) for _ in range(nfun)]
+    tmp = [S.new(f) for _ in range(3)]
+    tg = S.new(g)
+    tables = []
+    for i in range(nfun):
+        T = rand_table(rng, kind, npts, pal, p_default=rng.choice([0.4, 0.7]))
+        if i > 0 and rng.random() < 0.3:
+            T = list(tables[rng.randrange(len(tables))])        # the same function again
+        tables.append(T)
+    join = None
+    if rngt == 'B':
+        join = ('UNION', 0)
+    elif lab in ('EP',):
+        join = ('MINIMUM', INF)
+    elif lab == 'MT':
+        join = ('MAXIMUM', None)
+    for round_ in range(2):
+        for i, T in enumerate(tables):
+            # path 1: one collection
+            table_coll(S, targets[i], f, kind, T, sizes)
+            # path 2: point by point in shuffled order, joined
+            if join:
+                op, neutral = join
+                pts = [(r, v) for r, v in enumerate(T)]
+                rng.shuffle(pts)
+                lo = min([v for v in T if v != INF], default=0) if neutral is None else neutral
+                if neutral is None:
+                    S.add('const %d %d %s' % (tmp[0], f, lo))
+                else:
+                    S.add('const %d %d %s' % (tmp[0], f, 'inf' if neutral == INF else neutral))
+                for (r, v) in pts:
+                    if (neutral is None and v == lo) or v == neutral or (rngt == 'B' and v == 0):
+                        continue
+                    dflt = lo if neutral is None else neutral
+                    S.coll(tmp[1], f, 'ONE', 'inf' if dflt == INF else dflt, [(v, rank_to_assignment(r, sizes, rel))])
+                    S.add('bin %s %d %d %d' % (op, tmp[0], tmp[0], tmp[1]))
+                S.add('obs %d %d' % (targets[i], tmp[0]))
+            # path 3: through another forest and back
+            S.add('un COPY %d %d' % (tg, targets[i]))
+            S.add('un COPY %d %d' % (tmp[2], tg))
+            S.add('obs %d %d' % (targets[i], tmp[2]))
+            # path 4: rewrites that are identities
+            if rngt == 'B':
+                S.add('un COMPLEMENT %d %d' % (tmp[1], targets[i]))
+                S.add('un COMPLEMENT %d %d' % (tmp[1], tmp[1]))
+                S.add('bin INTERSECTION %d %d %d' % (tmp[2], targets[i], targets[i]))
+                S.add('bin DIFFERENCE %d %d %d' % (tmp[0], targets[i], tmp[0]))
+            elif lab == 'MT' or lab == 'EP':
+                S.add('bin MAXIMUM %d %d %d' % (tmp[1], targets[i], targets[i]))
+                S.add('bin MINIMUM %d %d %d' % (tmp[2], targets[i], targets[i]))
+            S.add('obs')
+        S.add('snap %d' % f)
+        if round_ == 0:
+            # release everything, clear caches: the second round rebuilds with recycled handles
+            for s in targets + tmp:
+                S.add('attach %d -1' % s)
+                S.add('attach %d %d' % (s, f))
+            S.add('attach %d -1' % tg)
+            S.add('attach %d %d' % (tg, g))
+            S.add('clearall')
+            S.add('snap %d' % f)
+    return S.text()
+
+
+# ---------------------------------------------------------------------------
+# C13: variable reordering
+# ---------------------------------------------------------------------------
+HEURS = ['SD', 'BU', 'LI', 'HI', 'LC', 'LM', 'RA', 'LA']
+
+
+def c13_script(rng, sizes, kind, rule, heur, swap, perms, nedges=4):
+    import itertools
+    sr, rngt, lab = KINDS[kind]
+    rel = sr == 'R'
+    S = Script()
+    d = S.dom(sizes)
+    f = S.forest(d, kind, rule, sto=rng.choice(STO), swap=swap, heur=heur)
+    g = S.forest(d, kind, rule)         # a second forest over the same domain: must stay untouched
+    npts = points_of(sizes, rel)
+    pal = COPY_PAL.get(kind)
+    es = [S.new(f) for _ in range(nedges)]
+    eg = [S.new(g) for _ in range(2)]
+    for e in es:
+        table_coll(S, e, f, kind, rand_table(rng, kind, npts, pal, p_default=rng.choice([0.3, 0.6])), sizes)
+    for e in eg:
+        table_coll(S, e, g, kind, rand_table(rng, kind, npts, pal, p_default=0.5), sizes)
+    # warm the compute tables
+    op = 'UNION' if rngt == 'B' else ('MINIMUM' if lab == 'EP' else 'MAXIMUM')
+    tmp = S.new(f)
+    S.add('bin %s %d %d %d' % (op, tmp, es[0], es[1]))
+    S.add('bin %s %d %d %d' % (op, es[-1], es[-1], es[0]))
+    S.add('obs')
+    for p in perms:
+        S.add('reorder %d %s' % (f, ' '.join(map(str, p))))
+        S.add('obs')
+        S.add('snap %d' % f)
+        S.add('snap %d' % g)
+        # the forest must still be usable: operations after the reordering
+        S.add('bin %s %d %d %d' % (op, tmp, es[0], es[1]))
+        S.add('bin %s %d %d %d' % (op, es[1], es[1], es[2 % nedges]))
+        S.add('obs')
+    return S.text()
+
+
+@plan('C13')
+def plan_c13(tier, seed, rng):
+    import itertools
+    scripts = []
+    n = 0
+    kinds = ['mtb_s', 'mti_s', 'mtr_s', 'evp_s', 'mtb_r', 'mti_r']
+    for kind in kinds:
+        rel = KINDS[kind][0] == 'R'
+        rules = gen.rules_of(kind)
+        for heur in HEURS:
+            swaps = ['V', 'L'] if rel else ['V']
+            for swap in swaps:
+                if tier != 'thorough' and rng.random() < 0.5 and heur != 'SD':
+                    continue
+                K = rng.choice([2, 3]) if rel else rng.choice([3, 4])
+                sizes = [rng.choice([2, 3]) for _ in range(K)]
+                while points_of(sizes, rel) > (81 if rel else 54):
+                    sizes[rng.randrange(K)] = 2
+                allp = list(itertools.permutations(range(1, K + 1)))
+                rng.shuffle(allp)
+                perms = allp[:(6 if tier == 'thorough' else 3)]
+                scripts.append(('o%03d_%s_%s%s' % (n, kind, heur, swap),
+                                c13_script(rng, sizes, kind, rng.choice(rules), heur, swap, perms)))
+                n += 1
+    return dict(
+        scripts=scripts, validators=[API, STORE], tags={'C13', 'HELD', 'C02'},
+        rule='per forest kind (MT boolean/integer/real sets, EV+ sets, MT boolean/integer relations) x scheduling heuristic (all eight) x swap method '
+             '(relations: variable swap and level swap): several edges sharing nodes plus a warm compute table, then a sequence of target permutations '
+             '(all 24 / 6 for small K in thorough); after each reordering every held edge is evaluated at every point and compared with PermuteFn of the '
+             'specification, a second forest over the same domain must be unchanged, the node snapshot must satisfy the reduction rule and exact counts, '
+             'and further operations must agree with the specification; non-trivial = non-constant function',
         exhaustive=False,
     )
